@@ -138,6 +138,7 @@ fn gen_source(t: &mut Tape, all_rules: bool) -> String {
         0 => gen_tree(t, &so).0,
         _ => gen_program(t, &GenOpts::luau()).block,
     };
+    let block = crate::gen::context::maybe_wrap(block, t, true, 64).0;
     if t.bool(60) {
         let mut lo = luaprint::LayoutOpts::all(true);
         lo.trailing_newline = true;
